@@ -2,8 +2,9 @@
 // import). The cases run in a few long-lived children (see build() in main.go for why), `Size`
 // consecutive case numbers per child and `Workers` children at a time. A child prints the transcript of
 // every case as soon as it is finished, so that when a child dies (a fatal panic in a builder goroutine)
-// or hangs, the finished cases are kept, the case it was working on is answered `crash` / `hang`, and a
-// new child continues after it.
+// or hangs, the finished cases are kept, the case it was working on is answered `crash` / `hang` (or
+// `builder-crash` when it died between the marks `PHASE <no> building` and `PHASE <no> built`), and a new
+// child continues after it.
 package main
 
 import (
@@ -90,6 +91,20 @@ func finished(out string) map[int]string {
 	return res
 }
 
+// lastPhase returns the last `PHASE\t<no>\t<phase>` mark the child printed for case `no`.
+func lastPhase(out string, no int) string {
+	prefix := fmt.Sprintf("PHASE\t%d\t", no)
+	i := strings.LastIndex(out, prefix)
+	if i < 0 {
+		return ""
+	}
+	rest := out[i+len(prefix):]
+	if nl := strings.IndexByte(rest, '\n'); nl >= 0 {
+		return rest[:nl]
+	}
+	return ""
+}
+
 func (b *Blocks) runBlock(blk int) map[int]string {
 	first, count := blk*b.Size, b.Size
 	if blk < 0 {
@@ -112,9 +127,12 @@ func (b *Blocks) runBlock(blk int) map[int]string {
 		if next >= end {
 			break
 		}
-		if status == "hang" {
+		switch {
+		case status == "hang":
 			res[next] = "hang"
-		} else {
+		case lastPhase(out, next) == "building":
+			res[next] = "builder-crash"
+		default:
 			res[next] = "crash"
 		}
 		cur = next + 1
@@ -205,5 +223,7 @@ type Transcript struct{ sb strings.Builder }
 func (t *Transcript) Op(op, ans string) { fmt.Fprintf(&t.sb, "O\t%s\t%s\n", op, ans) }
 func (t *Transcript) Note(b string)     { fmt.Fprintf(&t.sb, "N\t%s\n", b) }
 func (t *Transcript) NonTrivial()       { t.sb.WriteString("T\n") }
-func (t *Transcript) Comment(s string)  { fmt.Fprintf(&t.sb, "#\t%s\n", strings.ReplaceAll(s, "\n", " ")) }
-func (t *Transcript) String() string    { return t.sb.String() }
+func (t *Transcript) Comment(s string) {
+	fmt.Fprintf(&t.sb, "#\t%s\n", strings.ReplaceAll(s, "\n", " "))
+}
+func (t *Transcript) String() string { return t.sb.String() }
